@@ -17,6 +17,8 @@ PALETTE = {
     "lead": " lead", "trail": "trail ", "nl": "\n", "nlend": "abc\n", "nlstart": "\nabc",
     "u2": "é", "u3": "€x", "u4": "𝄞", "u4q": "'𝄞'", "long": "x" * 60,
     "quotsp": "a' b", "quotend1": "a' ", "dq1": "a\" b",
+    # delimiter characters on both sides of a line terminator (inside triple-quoted strings the runs must not be added up)
+    "mlqq": 'ab""\n"cd', "mlaa": "x'\n''y", "mlq1": 'a"\n"b', "mla1": "a'\n'b",
 }
 
 
